@@ -63,6 +63,8 @@ def leaves():
     # typed variables, literals, a fixed-length string variable and the two kinds of record member
     return [var("A", "I"), var("B", "S"), var("S", "$"), lit("I", 1), lit("$", "x"), lit("D", 2),
             bare("FX", "$"), bare("REC.S", "$"), bare("REC.X", "I"), rec("REC", "RT"), rec("RE2", "RU"),
+            # whole arrays (a kind of their own that fits no position)
+            rec("AR%()", "ARR-I"), rec("AS$()", "ARR-S"), rec("RA()", "ARR-RT"),
             # calls of functions that are not defined anywhere: a string / a number by their suffix
             ucall("UFS$", ["n"], "s", lit("I", 1)), ucall("UFN%", ["n"], "n", lit("I", 1))]
 
